@@ -29,7 +29,7 @@ RULE = ("scenario = one conversation (initialize + 1..5 list/call/read/get/ping/
         "several classes, 0..3 notifications before each response, string and integer ids) run over every carrier able to express it, with "
         "per-carrier nuisance (latency, chunking); non-trivial = at least two carriers ran and the conversation has a notification, an error "
         "reply, an integer id or non-ASCII payload")
-PROBES = ["result_with_explicit_null_error", "error_reply_with_code_0_or_empty_message", "lone_surrogate_escape_in_server_text", "legacy_sse_untyped_event_with_endpoint_like_payload", "server_greets_at_connection_time", "greeting_in_same_chunk_as_endpoint", "http_session_assigned_with_initialize_result", "http_sse_untyped_events_after_keepalive", "through_mcpclient", "slow_notification_transit_on_http", "over_100_notifications_in_session", "sse_event_before_202", "notifications_before_response", "error_reply", "int_id", "non_ascii_payload", "four_carriers", "nested_nulls"]
+PROBES = ["pipelined_requests_late_reader", "result_with_explicit_null_error", "error_reply_with_code_0_or_empty_message", "lone_surrogate_escape_in_server_text", "legacy_sse_untyped_event_with_endpoint_like_payload", "server_greets_at_connection_time", "greeting_in_same_chunk_as_endpoint", "http_session_assigned_with_initialize_result", "http_sse_untyped_events_after_keepalive", "through_mcpclient", "slow_notification_transit_on_http", "over_100_notifications_in_session", "sse_event_before_202", "notifications_before_response", "error_reply", "int_id", "non_ascii_payload", "four_carriers", "nested_nulls"]
 TIERS = {"quick": {"runs": 3000, "wall": 45.0}, "thorough": {"runs": 80000, "wall": 560.0}}
 ASSUMPTIONS = ["fault-free by construction: only latency and chunking vary between carriers",
                "JSON-body HTTP runs only conversations without interleaved notifications (a single JSON object cannot express them)",
@@ -56,6 +56,14 @@ def generate(rng: random.Random, tier: str) -> dict:
             e["id"] = rng.choice([f"raw-{k}", k + 10, f"{k + 10}", -k - 1, 2 ** 53 + k])
         ex.append(e)
     api = rng.choice(["helpers", "helpers", "mcpclient"])
+    if rng.random() < 0.03:
+        # a client that writes many requests before it reads anything (pipelining / a reader that starts late): more than 100 messages
+        # pile up behind the read stream
+        api = "pipelined"
+        ex = []
+        for k in range(rng.choice([30, 40])):
+            ex.append({"helper": "raw", "notifs": 3, "reply": rng.choice(["result", "result", "error"]), "code": -32000, "text": rng.choice(TEXTS), "nulls": False,
+                       "data": None, "id": f"r{k}"})
     greeting = None
     if api == "helpers" and rng.random() < 0.15:
         # the server says something the moment the connection is up (only carriers with a server-to-client channel at that time can express it)
@@ -197,6 +205,19 @@ async def _converse(sim, scn, read_stream, write_stream, st):
     T = 5.0
     if scn["init"]:
         await run("initialize", ini.send_initialize(rr, write_stream, timeout=T))
+    if scn.get("client_api") == "pipelined":
+        from chuk_mcp.protocol.messages.json_rpc_message import JSONRPCRequest
+        for k, e in enumerate(scn["exchanges"]):
+            await write_stream.send(JSONRPCRequest.model_validate({"jsonrpc": "2.0", "id": e["id"], "method": "x/raw", "params": {"q": e["text"]}}))
+        await anyio.sleep(1.5)   # ... and only now starts reading, until the line has been quiet for two seconds
+        while True:
+            got_one = False
+            with anyio.move_on_after(2.0):
+                await rr.receive()
+                got_one = True
+            if not got_one:
+                break
+        return
     for k, e in enumerate(scn["exchanges"]):
         h = e["helper"]
         if h == "tools_list":
@@ -578,6 +599,8 @@ def execute(scn: dict) -> dict:
         probe("four_carriers")
     if scn.get("client_api") == "mcpclient":
         probe("through_mcpclient")
+    if scn.get("client_api") == "pipelined":
+        probe("pipelined_requests_late_reader")
     if any("\\ud" in json.dumps(e.get("stext", "")) for e in scn["exchanges"]):
         probe("lone_surrogate_escape_in_server_text")
     if scn["nuisance"].get("legacy_sse_style") == "untyped" and any("/m" in e.get("stext", "") for e in scn["exchanges"]):
